@@ -6,6 +6,7 @@ import (
 	"encoding/hex"
 	"encoding/json"
 	"fmt"
+	"go/ast"
 	"go/token"
 	"go/types"
 	"os"
@@ -41,6 +42,7 @@ type Config struct {
 	Tier         string
 	SelfRecLimit int
 	Known        map[string]bool
+	Escapes      bool
 }
 
 type Engine struct {
@@ -54,6 +56,8 @@ type Engine struct {
 	intr            map[string]intrinsic
 	sizes           types.Sizes
 	LoadTime        time.Duration
+	esc             *escInfo             // compiler escape analysis of the package under test (-escapes)
+	astFiles        map[string]*ast.File // syntax of the package under test, by file name
 }
 
 type intrinsic func(e *Exec, fn *ssa.Function, args []Value, pos token.Pos) Value
@@ -108,6 +112,15 @@ func Load(cfg Config) (*Engine, error) {
 		}
 	}
 	g.registerIntrinsics()
+	g.astFiles = map[string]*ast.File{}
+	for _, f := range pkgs[0].Syntax {
+		g.astFiles[filepath.Clean(g.fset.Position(f.Pos()).Filename)] = f
+	}
+	if cfg.Escapes {
+		if g.esc, err = g.loadEscapes(); err != nil {
+			return nil, err
+		}
+	}
 	g.LoadTime = time.Since(t0)
 	return g, nil
 }
@@ -187,6 +200,8 @@ type Result struct {
 	Inconclusive bool           `json:"inconclusive"`
 	Solver       string         `json:"solver"`
 	LockLog      []string       `json:"lock_log,omitempty"`
+	EscapeCmd    string         `json:"escape_analysis_cmd,omitempty"`
+	EscapeSites  int            `json:"escape_heap_sites,omitempty"`
 }
 
 // RunHarness explores every path of harness function `name`.
@@ -195,6 +210,9 @@ func (g *Engine) RunHarness(name string) *Result {
 	fn := g.pkg.Func(name)
 	res := &Result{Harness: name, Tags: g.cfg.Tags, PathEnds: map[string]int{}, Asserts: map[string]int{}, LoadS: g.LoadTime.Seconds(),
 		Solver: strings.Join(solverArgv(), " ")}
+	if g.esc != nil {
+		res.EscapeCmd, res.EscapeSites = g.esc.cmd, g.esc.nmsg
+	}
 	if fn == nil {
 		res.Unsupported = "no such harness function: " + name
 		res.Inconclusive = true
